@@ -15,6 +15,7 @@
   `*Transpose` layers do not run in the sandbox and are outside every statement here.
 -/
 import QKV.Lemmas.Layers
+import QKV.Lemmas.LayersConcrete
 namespace QKV.Props.C11
 open QKV QKV.Layers
 
@@ -285,5 +286,92 @@ theorem C11_reported_bias_without_bias :
       appliedSlots 2 [qlayer .dense c] = [0] := by
   refine ⟨{ hasQ := fun _ => true, useBias := false }, ?_, ?_⟩ <;>
   simp [getQuantizers, slotCount, List.range_succ, appliedSlots, qlayer, qDense, qw, withAct, quantSites]
+
+/-! ## 5. the concrete (exact-rational) primitives: why pooling is stated against
+       "sum × quantized reciprocal", index facts of the convolutions, element-wise quantizers -/
+
+/-- average pooling is homogeneous, for every padding: `avg(c·x) = c·avg(x)` -/
+theorem C11_pool_homogeneous (h w ph pw sh sw bh bw : ℕ) (c : ℚ) (x : ℕ → ℕ → ℚ) (i j : ℕ) :
+    avgPoolAt h w ph pw sh sw bh bw (fun r q => c * x r q) i j =
+      c * avgPoolAt h w ph pw sh sw bh bw x i j :=
+  avgPoolAt_mul_left h w ph pw sh sw bh bw c x i j
+
+/-- `avgPool(area • x) = sumPool x` on every window that lies inside the image (all windows of a
+    `valid` pooling): QAveragePooling2D computes  pooling SUM × quantized reciprocal. -/
+theorem C11_pool_identity (h w ph pw sh sw : ℕ) (x : ℕ → ℕ → ℚ) (i j : ℕ)
+    (hi : i * sh + ph ≤ h) (hj : j * sw + pw ≤ w) (hp : 0 < ph * pw) :
+    avgPoolAt h w ph pw sh sw 0 0 (fun r q => ((ph * pw : ℕ) : ℚ) * x r q) i j =
+      sumPoolAt h w ph pw sh sw 0 0 x i j := by
+  rw [avgPoolAt_mul_left, avgPoolAt_inside h w ph pw sh sw x i j hi hj]
+  have : ((ph * pw : ℕ) : ℚ) ≠ 0 := by exact_mod_cast hp.ne'
+  field_simp
+
+/-- so with a quantizer that represents `1/area` exactly (or none) the quantized pooling layer IS
+    the stock average, for every padding (exact arithmetic) -/
+theorem C11_avgPool_exact_reciprocal (h w ph pw sh sw bh bw area : ℕ) (x : ℕ → ℕ → ℚ) (i j : ℕ)
+    (ha : 0 < area) :
+    avgPoolAt h w ph pw sh sw bh bw (fun r q => (area : ℚ) * x r q) i j * (1 / (area : ℚ)) =
+      avgPoolAt h w ph pw sh sw bh bw x i j := by
+  rw [avgPoolAt_mul_left]
+  have : (area : ℚ) ≠ 0 := by exact_mod_cast ha.ne'
+  field_simp
+
+/-- global pooling: the stock mean is the pooling sum times the exact reciprocal -/
+theorem C11_globalAvgPool_mean (h w : ℕ) (x : ℕ → ℕ → ℚ) :
+    meanHWAt h w x = sumHWAt h w x * (1 / ((h * w : ℕ) : ℚ)) := meanHWAt_eq h w x
+
+/-- index facts of the concrete convolutions (also used by C19):
+    causal = left-pad by the dilated extent − 1 then `valid`; `same` with stride 1 keeps the length;
+    `valid` with stride 1 loses extent − 1; the last `same` window fits the padded signal -/
+theorem C11_conv_indexing (n k s d : ℕ) (hs : 1 ≤ s) :
+    convOutLen .valid (n + (kext k d - 1)) k s d = convOutLen .causal n k s d ∧
+    convOutLen .same n k 1 d = n ∧
+    (kext k d ≤ n → convOutLen .valid n k 1 d + kext k d = n + 1) ∧
+    (1 ≤ n → 2 * padBefore .same n k s d ≤ (convOutLen .same n k s d - 1) * s + kext k d - n ∧
+             (convOutLen .same n k s d - 1) * s < n) :=
+  ⟨convOutLen_causal n k s d hs, convOutLen_same_stride1 n k d, convOutLen_valid_stride1 n k d,
+   fun hn => same_window_fits n k s d hn hs⟩
+
+/-- the causal left pad of the layer terms (`dilation * (kernel − 1)`) is the dilated extent − 1 -/
+theorem C11_causal_pad_is_extent (k d : ℕ) : d * (k - 1) = kext k d - 1 := by
+  unfold kext; rw [Nat.mul_comm]; omega
+
+/-- a 1×1, stride-1, undilated, ungrouped convolution is `K.dot` along the channel axis (1-D, 2-D) -/
+theorem C11_conv_pointwise_is_dot :
+    (∀ (n cg fpg : ℕ) (x : ℕ → ℕ → ℚ) (w : ℕ → ℕ → ℕ → ℚ) (o f : ℕ), o < n → f < fpg →
+      conv1dAt n 1 1 1 0 cg fpg x w o f = dotAt cg (x o) (w 0) f) ∧
+    (∀ (h w cg fpg : ℕ) (x : ℕ → ℕ → ℕ → ℚ) (ker : ℕ → ℕ → ℕ → ℕ → ℚ) (oi oj f : ℕ),
+      oi < h → oj < w → f < fpg →
+      conv2dAt h w 1 1 1 1 1 1 0 0 cg fpg x ker oi oj f = dotAt cg (x oi oj) (ker 0 0) f) :=
+  ⟨fun n cg fpg x w o f ho hf => conv1dAt_pointwise n cg fpg x w o f ho hf,
+   fun h w cg fpg x ker oi oj f hi hj hf => conv2dAt_pointwise h w cg fpg x ker oi oj f hi hj hf⟩
+
+/-- every element-wise quantizer (quantized_bits with constant scale, quantized_relu, quantized_tanh,
+    quantized_sigmoid, hard sigmoid / tanh) commutes with `expand_dims` in the concrete model … -/
+theorem C11_elementwise_commutes_expandDims (q : QSpec) (f : ℚ → ℚ) (h : q.scalarFn = some f) :
+    CommutesExpand concrete q.apply :=
+  fun t => elementwise_commutes_expandDims q f h 0 t
+
+/-- … so the hypothesis of `C11_dropin_sepConv1d` is satisfiable and QSeparableConv1D is drop-in for
+    them: concrete instance, any geometry, weights and inputs (non-vacuity of the hypothesis). -/
+theorem C11_dropin_sepConv1d_elementwise (c : LCfg) (x : Tensor) (ws : List Tensor) (qs as : List QSpec)
+    (h0 : ∃ f, (qs.getD 0 .ident).scalarFn = some f) (h1 : ∃ f, (qs.getD 1 .ident).scalarFn = some f) :
+    let E := concreteEnv x [] ws Tensor.bad qs as
+    eval concrete E (qlayer .sepConv1d c) =
+      actOf c E (eval concrete (preEnv c E) (kerasLayer .sepConv1d c)) := by
+  intro E
+  obtain ⟨f0, hf0⟩ := h0
+  obtain ⟨f1, hf1⟩ := h1
+  exact C11_dropin_sepConv1d concrete E c
+    (fun _ => C11_elementwise_commutes_expandDims _ f0 hf0)
+    (fun _ => C11_elementwise_commutes_expandDims _ f1 hf1)
+
+/-! ### non-vacuity: the hypotheses used above are satisfiable -/
+
+example : Plain .conv2d := by simp [Plain]
+example : (1 : ℕ) * 2 + 2 ≤ 5 ∧ 0 < 2 * 2 := by omega
+example : (QSpec.bits { bits := 4, integer := 0, symmetric := true, keepNeg := true, alpha := none }).scalarFn
+    = some (qbits .even { bits := 4, integer := 0, symmetric := true, keepNeg := true, alpha := none }) := rfl
+example : ∃ c : LCfg, c.hasQ 1 = true ∧ c.hasQ 3 = false := ⟨{ hasQ := fun s => s == 1 }, rfl, rfl⟩
 
 end QKV.Props.C11
